@@ -48,6 +48,9 @@ func checkC15(r *evid.Run) {
 	r.Set("exhaustive", true)
 	r.Set("rule", "every item sequence up to the bound spelled under each member of the notation family (unit: tab, 1-4 spaces, 2 tabs; bullet per line; heading roots; CRLF; blank/white-space-only lines at any position; final newline by concretisation), replayed through text (both generators), JSON, YAML and walk; the full product of the dimensions is sampled by the random trace driver; non-trivial = at least 2 nodes")
 	traceDocs(r, "C15", traceSpecC15)
+	deep := traceSpecDeep // chains 66-90 levels deep under every unit: hundreds of columns of indentation are notation too
+	deep.NQuick = 6
+	traceDocs(r, "C15", deep)
 	np := 60
 	if r.Tier == "thorough" {
 		np = 600
